@@ -8,6 +8,7 @@ package main
 
 import (
 	"fmt"
+	"os"
 	"sort"
 	"strings"
 	"sync"
@@ -242,6 +243,18 @@ func (p *Path) query(extra *Term) (Verdict, Model) {
 		}
 	}
 	d := time.Since(t0)
+	if slowMs > 0 && d > time.Duration(slowMs)*time.Millisecond {
+		n := atomic.AddInt64(&slowSeq, 1)
+		fn := fmt.Sprintf("/tmp/probe/slow-%d.smt2", n)
+		var sb strings.Builder
+		sb.WriteString("(set-logic ALL)\n")
+		for _, l := range p.script {
+			sb.WriteString(l + "\n")
+		}
+		sb.WriteString(fmt.Sprintf("(assert %s)\n(check-sat)\n", r))
+		os.WriteFile(fn, []byte(sb.String()), 0o644)
+		fmt.Fprintf(os.Stderr, "SLOW %v %s verdict=%v at %s -> %s\n", d, p.run.Name, v, p.whereHint(), fn)
+	}
 	p.run.mu.Lock()
 	p.run.Queries[v]++
 	p.run.SolverNs += int64(d)
@@ -431,6 +444,33 @@ func (p *Path) ConcretePanic(msg, where string) {
 	panic(pathEnd{"panic", msg})
 }
 
+// Require: the engine's own side condition (e.g. a narrowing conversion of a mathematical integer
+// stays in range). Not provable => the path is inconclusive, never silently assumed.
+func (p *Path) Require(c *Term, msg string) {
+	if c.IsConst() {
+		if !c.Bool() {
+			p.Inconclusive(msg)
+		}
+		return
+	}
+	if p.spec > 0 {
+		panic(specAbort{})
+	}
+	if p.replaying() {
+		p.assertPC(c)
+		return
+	}
+	if !p.pcIDs[c.id] {
+		if !p.evalBool(c) {
+			p.Inconclusive(msg)
+		}
+		if v, _ := p.query(p.ts.Not(c)); v != Unsat {
+			p.Inconclusive(msg)
+		}
+	}
+	p.assertPC(c)
+}
+
 func (p *Path) decided(c *Term) bool {
 	return p.pcIDs[c.id] || p.pcIDs[p.ts.Not(c).id]
 }
@@ -482,6 +522,16 @@ func (p *Path) Concretize(t *Term, what string) uint64 {
 		panic(specAbort{})
 	}
 	w := t.sort.Width()
+	if t.sort == SDy {
+		w = 64
+	}
+	valOf := func(ev *evalCtx) uint64 {
+		r := ev.eval(t)
+		if t.sort == SDy {
+			return uint64(r.bi.Int64())
+		}
+		return r.u
+	}
 	if p.replaying() {
 		d := p.prefix[p.pos]
 		p.pos++
@@ -492,7 +542,7 @@ func (p *Path) Concretize(t *Term, what string) uint64 {
 		p.assertPC(p.ts.Eq(t, p.ts.BV(w, d.val)))
 		return d.val
 	}
-	v0 := p.ev.eval(t).u
+	v0 := valOf(p.ev)
 	seen := []uint64{v0}
 	excl := p.ts.Not(p.ts.Eq(t, p.ts.BV(w, v0)))
 	for {
@@ -504,7 +554,7 @@ func (p *Path) Concretize(t *Term, what string) uint64 {
 			p.run.note(&p.run.Inconclusive, "concretisation of "+what+" unknown at "+p.whereHint())
 			break
 		}
-		v := newEvalCtx(m).eval(t).u
+		v := valOf(newEvalCtx(m))
 		p.fork(Decision{'c', v}, m)
 		seen = append(seen, v)
 		if len(seen) > p.cfg.ConcCap {
@@ -624,6 +674,8 @@ func (r *HarnessRun) note(m *map[string]int, s string) {
 // ---------- running a harness ----------
 
 var cpuSem chan struct{}
+var slowMs = envInt("VERIF_SLOW", 0)
+var slowSeq int64
 
 func newRun(name string, cfg *Config) *HarnessRun {
 	return &HarnessRun{Name: name, cfg: cfg, Obs: map[string]*ObStat{}, Covers: map[string]int{}, violSeen: map[string]int{},
